@@ -33,6 +33,65 @@ def grid(rng: random.Random, lo_ms: int, hi_ms: int) -> float:
     return rng.randint(max(1, lo_ms), max(1, hi_ms)) / 1000.0
 
 
+# ----------------------------------------------------------------------------- boundary palettes
+def is_lossy(seconds: float) -> bool:
+    """does the library's seconds -> integer-nanoseconds conversion (`int(s * 1e9)`) lose a nanosecond, so that the
+    instant read back with `.to_seconds()` is strictly *earlier* than `seconds`?  (1.001, 1.003, 2.05, ...)"""
+    return int(seconds * 1_000_000_000) / 1_000_000_000 < seconds
+
+
+# integer millisecond values whose seconds form is lossy (all lie above 1 s: 1001, 1003, ..., 2050, ...)
+LOSSY_MS = [ms for ms in range(1, 30001) if is_lossy(ms / 1000.0)]
+
+
+def dur_ms(rng: random.Random, lo_ms: float, hi_ms: float, zero: bool = False):
+    """A duration / period / interval / timeout / schedule boundary in *milliseconds* for a cfg entry that the
+    builder divides by 1000.0.  Draws from a boundary palette instead of a plain integer grid:
+
+      40 %  an integer number of ms in [lo, hi];
+      20 %  a value whose seconds form does not survive `Instant.from_seconds` / `Duration.from_seconds`
+            (int(s*1e9)/1e9 < s: the instant lies a nanosecond *before* the nominal time: 1.001 s, 2.05 s, 0.0573 s);
+      20 %  1-4 decimal digits of a second that are not whole ms (0.1 ms / 0.01 ms grid: 0.0125 s, 1.0001 s);
+      10 %  lo or hi exactly;
+      10 %  a "round" value (multiple of 50 / 100 / 250 / 1000 ms) inside the range.
+    `zero=True` additionally allows 0 (5 %).  The result is an int or a float with at most 3 decimals (JSON exact).
+    """
+    lo, hi = float(lo_ms), float(max(lo_ms, hi_ms))
+    if zero and rng.random() < 0.05:
+        return 0
+    r = rng.random()
+    ilo, ihi = int(-(-lo // 1)), int(hi // 1)
+    if ihi < ilo:
+        ilo = ihi = max(1, int(round(lo)))
+    if r < 0.40:
+        return rng.randint(ilo, ihi)
+    if r < 0.60:
+        cands = [m for m in LOSSY_MS if lo <= m <= hi]
+        if cands and rng.random() < 0.7:
+            return rng.choice(cands)
+        for _ in range(60):
+            x = round(rng.uniform(lo, hi), rng.choice([1, 2, 3]))
+            if lo <= x <= hi and is_lossy(x / 1000.0):
+                return x
+        return rng.randint(ilo, ihi)
+    if r < 0.80:
+        x = round(rng.uniform(lo, hi), rng.choice([1, 1, 2, 3]))
+        return x if lo <= x <= hi and x > 0 else rng.randint(ilo, ihi)
+    if r < 0.90:
+        x = rng.choice([lo, hi])
+        return int(x) if float(x).is_integer() else x
+    rounds = [m for step in (50, 100, 250, 1000) for m in range(step, int(hi) + 1, step) if lo <= m <= hi]
+    return rng.choice(rounds) if rounds else rng.randint(ilo, ihi)
+
+
+def size_over(rng: random.Random, small, limit: int):
+    """A capacity / key-space / population size: mostly one of `small`, sometimes just below, at, just above and well
+    above an internal constant of the library (`limit`: a hard-coded ghost-list length, batch size, history cap...)."""
+    if rng.random() < 0.6:
+        return rng.choice(list(small))
+    return rng.choice([max(1, limit - 1), limit, limit + 1, limit + 10, 2 * limit + 3])
+
+
 def make_recorder(name: str = "rec"):
     """A sink entity that records (time ns, event type) of everything it receives."""
     from happysimulator.core.entity import Entity
